@@ -62,8 +62,10 @@ func (f *FindMethod) Call(s *slip.Scope, args slip.List, depth int) (meth slip.O
 top:
 	switch ta := a0.(type) {
 	case slip.Symbol:
-		a0 = slip.FindFunc(string(ta))
-		goto top
+		if fi := slip.FindFunc(string(ta)); fi != nil {
+			a0 = fi
+			goto top
+		}
 	case *slip.FuncInfo:
 		aux, _ = ta.Aux.(*Aux)
 	}
